@@ -1,5 +1,5 @@
 (** C18 — Raw UDP connection emits valid IPv4/UDP frames and reads only its own. *)
-From DV Require Import Base.Bytes V4.Model Raw.Model Raw.Proofs.
+From DV Require Import Base.Bytes V4.Model Raw.Model Raw.Proofs Raw.Spec.
 
 (** every datagram leaves as: version 4 / IHL 5 (0x45), total length 28+n, TTL 64,
     protocol 17, source and destination address, then source port, destination
@@ -34,6 +34,23 @@ Print Assumptions C18_udp_checksum.
 Theorem C18_read_total : forall bound blen f, exists r, read_frame bound blen f = Ok r.
 Proof. exact read_frame_total. Qed.
 Print Assumptions C18_read_total.
+
+(** ... and it delivers a frame EXACTLY when the received octets have the
+    RFC 791 / RFC 768 layout of a UDP datagram for the bound address
+    ([frame_spec]: 20 fixed octets, options up to the header length h >= 5
+    words, 8 UDP octets, data; version 4, protocol 17, 4h + 8 <= total length <=
+    received octets, destination matching), and then exactly its payload (the
+    first total - 4h - 8 data octets, cut to the caller's buffer), source
+    address and source port; every other frame is skipped *)
+Theorem C18_read_exact : forall bound blen frame p src sport,
+  read_frame bound blen frame = Ok (Deliver p src sport) <-> frame_spec bound blen frame p src sport.
+Proof. exact read_frame_iff. Qed.
+Print Assumptions C18_read_exact.
+
+Theorem C18_read_skips_malformed : forall bound blen frame,
+  (forall p src sport, ~ frame_spec bound blen frame p src sport) -> read_frame bound blen frame = Ok Skip.
+Proof. exact read_frame_skips. Qed.
+Print Assumptions C18_read_skips_malformed.
 
 (** ... ReadFrom silently skips every frame the iteration skips and returns
     the first delivered one, for ANY sequence of frames; reading then continues
